@@ -191,3 +191,59 @@ Print Assumptions skeleton_matches.
 Theorem gate_paths_balanced_nonblocking : gate_ok dagsync_funcs = true.
 Proof. vm_compute. reflexivity. Qed.
 Print Assumptions gate_paths_balanced_nonblocking.
+
+(* ---- phase 2: further ties to the Gallina regenerated from the Go source (proofs/GenTie_C15.v) ---- *)
+From Coq Require Import ZArith NArith List Bool Lia String.
+From Lib Require Import Bytes.
+From Model Require Import C15_Shutdown.
+From Proofs Require Import GenTie_Lib.
+From Gen Require Import Gen_Consts Gen_Funcs_prelude Gen_Funcs_dagsync.
+Import ListNotations.
+Local Open Scope Z_scope.
+From Proofs Require Import GenTie_C15.
+
+Theorem gen_tie_doClose : forall (R : Type) (isnil : R -> bool) (closeR : R -> option string) (closed0 : bool) (recv : R),
+  match dagsync_doClose R isnil closeR closed0 recv with
+  | FReturn ret (closed', tr) =>
+      pcs tr = close_path (negb (isnil recv)) /\ closed' = true /\ ret = "return err"%string
+  | _ => False
+  end.
+Proof. exact GenTie_C15.tie_doClose. Qed.
+Print Assumptions gen_tie_doClose.
+
+Theorem gen_model_doClose_order : forall (s : st) (t : nat) (th : thread) (c : nat),
+  (t_pc th = CSet -> step_thread true s t th c = go s t th CUnlock (with_exp_closed (w_stage 4))) /\
+  (t_pc th = CUnlock -> step_thread true s t th c = go s t th CWaitExp (with_mu (w_stage 5) None)) /\
+  (t_pc th = CWaitExp -> step_thread true s t th c =
+     if none_active s exp_active
+     then (if has_recv s then go s t th CRecvClose (w_stage 6) else go s t th CWaitAsync (w_stage 8))
+     else None) /\
+  (t_pc th = CRecvClose -> step_thread true s t th c = go s t th CWaitWatch (with_recv_closed (w_stage 7))) /\
+  (t_pc th = CWaitWatch -> step_thread true s t th c = if watch_done s then go s t th CWaitAsync (w_stage 8) else None) /\
+  (t_pc th = CWaitAsync -> step_thread true s t th c =
+     if none_active s async_active then go s t th CCloseIn (w_stage 9) else None) /\
+  (t_pc th = CWaitDist -> step_thread true s t th c =
+     match C14_Events.d_pc (co s) with C14_Events.DDone => go s t th CWaitIC (w_stage 11) | _ => None end) /\
+  (t_pc th = CWaitIC -> step_thread true s t th c =
+     match ic_pc s with ICEnd => go s t th CPeerstore (w_stage 12) | _ => None end) /\
+  (t_pc th = CPeerstore -> step_thread true s t th c = go s t th COnceDone (w_stage 12)).
+Proof. exact GenTie_C15.model_doClose_order. Qed.
+Print Assumptions gen_model_doClose_order.
+
+Theorem gen_tie_shutdown_gate : forall closed : bool,
+  match dagsync_SyncAdChain_shutdown_gate closed with
+  | FReturn ret tr => closed = true /\ ret = "return cid.Undef, errors.New(""shutdown"")"%string
+                      /\ gate_pcs tr = [ELock; EUnlock]            (* ERefuse: unlock and refuse *)
+  | FFall tr => closed = false /\ gate_pcs tr = [ELock; EAdd; EUnlock]
+                /\ In "defer s.expSyncWG.Done()"%string tr         (* registered before the lock is released ... *)
+  | _ => False
+  end.
+Proof. exact GenTie_C15.tie_shutdown_gate. Qed.
+Print Assumptions gen_tie_shutdown_gate.
+
+Theorem gen_model_gate_order : forall (s : st) (t : nat) (th : thread) (c : nat),
+  (t_pc th = ECheck -> step_thread true s t th c = if exp_closed s then go s t th ERefuse u0 else go s t th EAdd u0) /\
+  (t_pc th = ERefuse -> step_thread true s t th c = go s t th (Fin RShutdown) (with_mu u0 None)) /\
+  (t_pc th = EAdd -> step_thread true s t th c = go s t th EUnlock u0).
+Proof. exact GenTie_C15.model_gate_order. Qed.
+Print Assumptions gen_model_gate_order.
